@@ -66,7 +66,7 @@ func (m *mesh) sentReject(x, peer string) bool {
 func runC11Case(t *testing.T, c c11Case) CaseOut {
 	var out CaseOut
 	out.Nontrivial = true
-	synctest.Test(t, func(t *testing.T) {
+	bubble(t, func(t *testing.T) {
 		m := newMesh(defaultConsts, "v", "g")
 		m.up("v", "g", 1)
 		m.settle()
@@ -221,7 +221,7 @@ func runC11Case(t *testing.T, c c11Case) CaseOut {
 func runC11Simul(t *testing.T, ids []string, order []int) CaseOut {
 	var out CaseOut
 	out.Nontrivial = true
-	synctest.Test(t, func(t *testing.T) {
+	bubble(t, func(t *testing.T) {
 		m := newMesh(defaultConsts, "v")
 		var peers []*hSess
 		for i := range ids {
@@ -285,7 +285,7 @@ func runC11Simul(t *testing.T, ids []string, order []int) CaseOut {
 // twin: two real nodes with the same ID; the later-started one must shut itself down
 func runC11Twin(t *testing.T, names []string, edges [][2]string, twinOf, attachAt string, r *xrun) []Violation {
 	var out CaseOut
-	synctest.Test(t, func(t *testing.T) {
+	bubble(t, func(t *testing.T) {
 		m := newMesh(defaultConsts, names...)
 		m.idOf = map[string]string{}
 		for _, e := range edges {
